@@ -23,7 +23,7 @@ from qv.rngx import QuantileRNG
 from qv.runner import Acc, Report, pmap
 
 PID = "C13"
-FVALS = [0.0, 1e-12, -1e-12, 1e-3, -1e-3, 1.0, -1.0, 50.0, -50.0, 1e6, -1e6, 1e300, -1e300]
+FVALS = [0.0, 1e-12, -1e-12, 1e-7, -1e-7, 1e-3, -1e-3, 1.0, -1.0, 50.0, -50.0, 1e6, -1e6, 1e300, -1e300]
 GMAX = 709.782712
 
 
@@ -116,8 +116,9 @@ def task_density(arg):
                             if p.shape != (3, 3) or not np.all(np.isfinite(p)):
                                 V("C13/density/non-finite-probability", f"P = {js(p)}; {where}")
                                 break
-                            sub = np.abs(true_gamma) < 1e-6
-                            slack = np.where(sub, 1e-3, 1e-9)
+                            # rounding level: exp(g) - exp(-g) carries a relative error ~ 2e-16/|g|
+                            sub = np.abs(true_gamma) < 1e-9
+                            slack = np.where(sub, 1e-3, 1e-6)
                             if np.any(p < -slack) or np.any(p > 1 + slack):
                                 V("C13/density/probability-outside-[0,1]", f"P = {js(p)}; {where}")
                                 break
@@ -126,10 +127,12 @@ def task_density(arg):
                             dens = ~sub
                             if dens.any():
                                 counters["nontrivial"] += 1
-                                err = np.abs(p - ref)[dens].max()
+                                tolg = 1e-7 + 1e-15 / np.maximum(np.abs(true_gamma), 1e-300)
+                                excess = np.where(dens, np.abs(p - ref) - tolg, -1.0)
+                                err = excess.max()
                                 worst = max(worst, err)
-                                if err > 1e-7:
-                                    i = np.unravel_index(np.argmax(np.where(dens, np.abs(p - ref), 0)), (3, 3))
+                                if err > 0:
+                                    i = np.unravel_index(np.argmax(excess), (3, 3))
                                     side = "along-force" if z * true_gamma[i] > 0 else "against-force"
                                     V(f"C13/density/differs-from-bal-neyts/{side}", f"P={p[i]!r} vs density {ref[i]!r} for gamma={true_gamma[i]:.6g}; {where}")
                                     break
@@ -158,7 +161,7 @@ def task_step(arg):
     counters = {"evaluations": 0, "nontrivial": 0}
     viol, seen, V = _adder(arg, "task_step")
     T = arg["T"]
-    masses_opts = [None, [1.0, 63.5, 197.0]]
+    masses_opts = [None, [1.0, 63.5, 197.0], "changed-after-construction"]
     powers = [0.25, 0.5, {"Cu": 0.3, "H": 0.1}, np.array([[0.25, 0.5, 0.1], [0.0, 0.3, 0.25], [1.0, 0.25, 0.4]])]
     # first-round answers per coordinate: (zeta quantile, u quantile); later rounds accept
     first_rounds = [
@@ -172,9 +175,12 @@ def task_step(arg):
             for mi, masses in enumerate(masses_opts):
                 for pw in powers:
                     for fr, (zq, uq) in enumerate(first_rounds):
-                        sim, atoms = make(F, delta, T, masses=masses)
+                        sim, atoms = make(F, delta, T, masses=None if isinstance(masses, str) else masses)
                         try:
                             sim.masses_scaling_power = pw if not isinstance(pw, float) else float(pw)
+                            if isinstance(masses, str):  # e.g. an isotope substitution, then the documented update_masses()
+                                atoms.set_masses([12.0, 197.0, 2.0])
+                                sim.update_masses()
                             # later rounds: zeta alternates around 0 (P ~ 1), u = 0 -> accepted
                             later = []
                             for _ in range(12):
@@ -203,7 +209,7 @@ def task_step(arg):
                             pwr = sim.masses_scaling_power
                             scale = np.power(m.min() / m, pwr)
                             bound = np.asarray(delta) * scale
-                            where = f"T={T} delta={'array' if np.ndim(delta) else delta} masses={'mixed' if masses else 'default'} power={'dict' if isinstance(pw, dict) else 'array' if isinstance(pw, np.ndarray) else pw} first-round #{fr} forces={js(F[0])}..."
+                            where = f"T={T} delta={'array' if np.ndim(delta) else delta} masses={masses if isinstance(masses, str) else 'mixed' if masses else 'default'} power={'dict' if isinstance(pw, dict) else 'array' if isinstance(pw, np.ndarray) else pw} first-round #{fr} forces={js(F[0])}..."
                             if not np.all(np.isfinite(dx)):
                                 V("C13/step/non-finite-displacement", where)
                                 continue
@@ -279,12 +285,12 @@ def run(tier, seed):
     rep.coverage = {
         "evaluations": acc.n("evaluations"),
         "distinct_nontrivial": acc.n("nontrivial"),
-        "rule": "density: one evaluation = one zeta grid point (64) for one (T in {1,300,5000}) x (4 deltas incl. per-coordinate) x (15 force patterns over {0,+-1e-12,+-1e-3,+-1,+-50,+-1e6,+-1e300}, mixed signs), non-trivial = some coordinate with |gamma| >= 1e-6 (density clause applies); step: one evaluation = one real run(1) under prescribed generator answers (4 first-round patterns incl. rejecting rounds and extreme answers) x masses x 4 power forms, non-trivial = more than one sampling round; termination: real PCG64 seeds 0..31 with huge/mixed/zero forces",
+        "rule": "density: one evaluation = one zeta grid point (64) for one (T in {1,300,5000}) x (4 deltas incl. per-coordinate) x (15 force patterns over {0,+-1e-12,+-1e-3,+-1,+-50,+-1e6,+-1e300}, mixed signs), non-trivial = some coordinate with |gamma| >= 1e-9 (density clause applies); step: one evaluation = one real run(1) under prescribed generator answers (4 first-round patterns incl. rejecting rounds and extreme answers) x masses x 4 power forms, non-trivial = more than one sampling round; termination: real PCG64 seeds 0..31 with huge/mixed/zero forces",
         "max_sampling_rounds_seen_with_real_generator": acc.maxima.get("max_rounds"),
         "exhaustive": True,
         "samples": [{"forces_pattern": js(force_patterns()[3]), "delta": 0.1, "T": 300.0, "zeta_grid": "64 midpoints of (-1,1)"}],
     }
-    rep.assumptions = ["the Bal-Neyts density is P(z) ~ (e^g - e^{g(2z-1)})/(e^g - e^-g) for z>0 and (e^{g(2z+1)} - e^-g)/(e^g - e^-g) for z<0, g = F delta / 2kT, evaluated with expm1; 'above rounding level' = |g| >= 1e-6", "uniform proposals on [-1,1] accepted with probability P(z) yield a density proportional to P"]
+    rep.assumptions = ["the Bal-Neyts density is P(z) ~ (e^g - e^{g(2z-1)})/(e^g - e^-g) for z>0 and (e^{g(2z+1)} - e^-g)/(e^g - e^-g) for z<0, g = F delta / 2kT, evaluated with expm1; 'above rounding level' = |g| >= 1e-9, with tolerance 1e-7 + 1e-15/|g|", "uniform proposals on [-1,1] accepted with probability P(z) yield a density proportional to P"]
     return rep
 
 
